@@ -1392,17 +1392,18 @@ class XMLSchemaBase(XsdValidator, ElementPathMixin[Union[SchemaType, XsdElement]
 
     def _validate_references(self, validation: str, context: ValidationContext) \
             -> Iterator[XMLSchemaValidationError]:
+        # Check still enabled key references (lazy validation cases), before IDREFs
+        # as the keyref errors of fully loaded documents are reported at scope end
+        for identity, counter in context.identities.items():
+            if counter.enabled and isinstance(identity, XsdKeyref):
+                for error in cast(KeyrefCounter, counter).iter_errors(context.identities):
+                    yield context.validation_error(validation, self, error, context.source.root)
+
         # Check unresolved IDREF values
         for k, v in context.id_map.items():
             if v == 0:
                 msg = _("IDREF %r not found in XML document") % k
                 yield context.validation_error(validation, self, msg, context.source.root)
-
-        # Check still enabled key references (lazy validation cases)
-        for identity, counter in context.identities.items():
-            if counter.enabled and isinstance(identity, XsdKeyref):
-                for error in cast(KeyrefCounter, counter).iter_errors(context.identities):
-                    yield context.validation_error(validation, self, error, context.source.root)
 
     def raw_decoder(self, source: Union[XMLSourceType, XMLResource],
                     path: Optional[str] = None,
